@@ -1,6 +1,13 @@
 """Single table of claimed checks; bin/mkmanifest renders MANIFEST.json from it."""
 
 CHECKS = {
+    "C09": dict(
+        level="model_checking",
+        technique="TLA+ spec MSVM (bytecode machine, shape mode: ip, block frames with regions, operand-depth interval); TLC explores every dumped function over all branch outcomes (ExploreVM) checking JumpInRange/PopsOnlyBlockFrames/DonePopsInnermostIfElse/FrameWithinRegion/DepthBounded/OperandShape/ModuleExitsWithEmptyStack; TraceVM trace-validates per-instruction hook traces of the real interpreter against the same successor relation",
+        text="Model checking of the real compiler's output: the bytecode is not modelled but loaded (hook H4 dump of what the interpreter's reader produced) and every reachable abstract state of every function is visited for all outcomes of all conditions, so paths no test executes are covered; the machine itself is bound to Function::run by validating instruction-level traces (frame depth and operand depth must agree at every fetch).",
+        note="Trusts: the H4 dump and H1 trace hooks report the loader's/interpreter's real state; operand depth is an interval (unknown callee arity widens it, which can only weaken OperandShape); programs explored = example corpus + generator pools, not all programs.",
+        design="5/C09",
+    ),
     "C20": dict(
         level="model_checking",
         technique="TLA+ spec MSClean (one Clean action over an abstract directory tree); TLC BFS enumerates all trees + checks C20 invariants on the model; each tree is materialised, real `mscript clean` is run, and TLC trace-validates the observed step against MSClean!Clean",
